@@ -42,3 +42,40 @@ Theorem C02_reduction_guarded_partial :
               wal r = [] /\ In (data r) (d0 :: flush_points st ops).
 Proof. exact crash_recovers_a_flush_point_g. Qed.
 Print Assumptions C02_reduction_guarded_partial.
+
+(* ======================= the collection layer: what loads at a flush point =======================
+   C02_reduction_partial reduces every crash to the file at a flush point; since fix 5d951b7 (C03) the flush points
+   are the boundaries between queries / transactions, where the storage's record map is the committed one.
+   PROVED HERE (collection layer, theories/Coll*.v; models and notions as in Props/C05.v): in EVERY state of the
+   abstract record map in which the representation invariant of a storage-backed vector / map / graph holds — and
+   C05_vec_history, C05_map_history, C05_graph_history show that it holds after every history of operations, reloads
+   and maintenance that ends with no transaction open — the loaders (DbVec::from_storage incl. its length check,
+   DbMapData::from_storage, GraphDataStorage::from_storage) succeed and read back exactly the content; by
+   C05_cwp_sound the same holds on the model of storage.rs.
+   STILL NOT PROVED (hence _partial): (1) that the state of the record map INSIDE one collection operation cut by a
+   crash is never observed — that is C03's single outer storage transaction (C03_no_inner_flush) composed with C01;
+   (2) the composition of the collections into the whole DbImpl (root record -> graph, two alias maps, index vector
+   of multi-maps, value vectors); both remain covered by the crash harness. *)
+From Agdb Require Import Storage StorageSpec Collections CollWp CollVecBase CollVec CollMap CollGraph CollAgree.
+
+Theorem C02_vec_loads_partial :
+  forall (fl : bool) (T : Type) (E : cv_elem T) (L : elem_law E) h slots l sp,
+    vrep T E L (hp sp) h slots l ->
+    cwp fl (h' <~ cv_from_storage T E (cv_index h) ;; cv_values T E h') sp (fun r sp' => r = CrOk l /\ sp' = sp).
+Proof. exact vec_loads. Qed.
+Print Assumptions C02_vec_loads_partial.
+
+Theorem C02_map_loads_partial :
+  forall (fl : bool) (K V : Type) (EK : cv_elem K) (EV : cv_elem V) (LK : elem_law EK) (LV : elem_law EV) d ss ks vs t sp,
+    mrep K V EK EV LK LV (hp sp) d ss ks vs t ->
+    cwp fl (cm_from_storage K V EK EV (cm_index d)) sp
+        (fun r sp' => exists d', r = CrOk d' /\ sp' = sp /\ mrep K V EK EV LK LV (hp sp) d' ss ks vs t).
+Proof. exact map_loads. Qed.
+Print Assumptions C02_map_loads_partial.
+
+Theorem C02_graph_loads_partial :
+  forall (fl : bool) d s a sp,
+    grep (hp sp) d s a -> sdepth sp = 0%N ->
+    cwp fl (cg_step d GoReload) sp (fun r sp' => exists d' s', r = CrOk (d', GbUnit) /\ grep (hp sp') d' s' a).
+Proof. exact graph_loads. Qed.
+Print Assumptions C02_graph_loads_partial.
